@@ -37,14 +37,23 @@ theorem finish_chainOK (t : Thread V E) (res : Res V E) (h : t.chain = keys t.st
     · simp [ChainOK, ctlKeys, Ctl.isPanicked, hst] at h ⊢; exact h
     · simp [ChainOK, ctlKeys, keys, Ctl.isPanicked, hst] at h ⊢; exact h
 
-theorem applyAdv_chainOK (t : Thread V E) (a : Adv V E) (h : t.chain = keys t.stack) : ChainOK (applyAdv t a) := by
+theorem applyAdv_chainOK (cfg : Cfg) (t : Thread V E) (a : Adv V E) (h : t.chain = keys t.stack) : ChainOK (applyAdv cfg t a) := by
   cases a with
-  | enter T r k => simp [applyAdv, ChainOK, ctlKeys, Ctl.isPanicked]; exact h
+  | enter T r k =>
+    simp only [applyAdv]
+    split <;> (simp [ChainOK, ctlKeys, Ctl.isPanicked]; exact h)
   | fin res => exact finish_chainOK t res h
 
 theorem runTo_chainOK (d : Doc V E) (cfg : Cfg) (sh : Shared V E) (t : Thread V E) (p : Prog V E)
     (h : t.chain = keys t.stack) : ChainOK (runTo d cfg sh t p).2 :=
-  applyAdv_chainOK t _ h
+  applyAdv_chainOK cfg t _ h
+
+theorem startLoad_chainOK (d : Doc V E) (cfg : Cfg) (sh : Shared V E) (t : Thread V E) (r : Nat) (p : Prog V E)
+    (h : t.chain = keys t.stack) : ChainOK (startLoad d cfg sh t r p).2 := by
+  unfold startLoad
+  split
+  · simp [ChainOK, ctlKeys, Ctl.isPanicked]; exact h
+  · exact runTo_chainOK d cfg sh t p h
 
 theorem afterLookup_chainOK (d : Doc V E) (cfg : Cfg) (sh : Shared V E) (t : Thread V E) (T r : Nat)
     (k : Res V E → Prog V E) (T' : Nat) (res : Res V E) (h : t.chain = r :: keys t.stack) :
@@ -55,9 +64,9 @@ theorem afterLookup_chainOK (d : Doc V E) (cfg : Cfg) (sh : Shared V E) (t : Thr
     simp only
     split
     · simp [ChainOK, ctlKeys, Ctl.isPanicked]; exact h
-    · exact runTo_chainOK d cfg sh _ _ (by simpa [keys] using h)
-  | err e => exact runTo_chainOK d cfg sh _ _ (by simpa [keys] using h)
-  | oof => exact runTo_chainOK d cfg sh _ _ (by simpa [keys] using h)
+    · exact startLoad_chainOK d cfg sh _ _ _ (by simpa [keys] using h)
+  | err e => exact startLoad_chainOK d cfg sh _ _ _ (by simpa [keys] using h)
+  | oof => exact startLoad_chainOK d cfg sh _ _ _ (by simpa [keys] using h)
 
 /-- Every transition of a thread with its own guard stack keeps `ChainOK`: in particular the pop
     assertion holds whenever it is evaluated. -/
@@ -101,7 +110,7 @@ theorem stepT_chainOK {d : Doc V E} {cfg : Cfg} (hg : cfg.sharedGuard = false) {
     · split at hs
       · simp only [Option.some.injEq] at hs
         rw [show t' = _ from (congrArg Prod.snd hs).symm]
-        exact runTo_chainOK d cfg _ _ _ (by simpa [keys] using hch)
+        exact startLoad_chainOK d cfg _ _ _ _ (by simpa [keys] using hch)
       · simp only [Option.some.injEq, Prod.mk.injEq] at hs
         rw [← hs.2]
         exact ⟨by simp [ctlKeys, hch], rfl⟩
@@ -110,7 +119,7 @@ theorem stepT_chainOK {d : Doc V E} {cfg : Cfg} (hg : cfg.sharedGuard = false) {
         exact afterLookup_chainOK d cfg sh _ T r k _ _ hch
     · simp only [Option.some.injEq] at hs
       rw [show t' = _ from (congrArg Prod.snd hs).symm]
-      exact runTo_chainOK d cfg _ _ _ (by simpa [keys] using hch)
+      exact startLoad_chainOK d cfg _ _ _ _ (by simpa [keys] using hch)
   | waiting T r k =>
     simp only [ctlKeys, List.singleton_append] at hch
     simp only [stepT] at hs
@@ -119,6 +128,16 @@ theorem stepT_chainOK {d : Doc V E} {cfg : Cfg} (hg : cfg.sharedGuard = false) {
       rw [show t' = _ from (congrArg Prod.snd hs).symm]
       exact afterLookup_chainOK d cfg sh _ T r k _ _ hch
     · simp at hs
+  | logging T r k =>
+    simp only [ctlKeys, List.nil_append] at hch
+    simp only [stepT, Option.some.injEq, Prod.mk.injEq] at hs
+    rw [← hs.2]
+    exact ⟨by simpa [ctlKeys] using hch, rfl⟩
+  | loading r p =>
+    simp only [ctlKeys, List.nil_append] at hch
+    simp only [stepT, Option.some.injEq] at hs
+    rw [show t' = _ from (congrArg Prod.snd hs).symm]
+    exact runTo_chainOK d cfg sh _ p hch
   | storing res =>
     simp only [ctlKeys, List.nil_append] at hch
     cases stack with
